@@ -330,6 +330,17 @@ func runC10(r *vk.Run) {
 			&VecAgg{Op: "topk", K: np + 3, Inner: leaf, Grouped: true, Without: true, Group: []string{"pod", "zone"}},
 			&VecAgg{Op: "count", Inner: leaf, Grouped: true, Group: []string{"g", "zone"}},
 		}
+		{
+			// operands that are not in any particular order of their label sets (a zero-filled ratio: what
+			// `or` adds comes after everything its left side had): series still pair up by label set alone
+			lqz := lq
+			lqz.Sel = append(append([]selMatcher{}, lq.Sel...), selMatcher{Label: "zone", Op: logql.OpEq, OpS: "=", Value: "z0"})
+			leafZ := &RangeQ{Log: lqz, Fn: "count_over_time", Range: leaf.Range}
+			part := &VecAgg{Op: "sum", Inner: leafZ, Grouped: true, Group: []string{"g"}}
+			all := &VecAgg{Op: "sum", Inner: leaf, Grouped: true, Group: []string{"g"}}
+			filled := &Paren{X: &BinOp{Op: "or", L: part, R: &Paren{X: &BinOp{Op: "*", L: all, R: &Lit{V: 0}}}}}
+			exprs = append(exprs, &BinOp{Op: "/", L: filled, R: all}, &BinOp{Op: "-", L: all, R: filled})
+		}
 		p := EvalP{Start: metricT0 + 4e9, End: metricT0 + 20e9, Step: 4 * time.Second}
 		for _, expr := range exprs {
 			text := expr.Text()
@@ -527,5 +538,6 @@ func runC10(r *vk.Run) {
 
 	r.Require("repetitions", 3000)
 	r.Require("conservation_checks", 1000)
+	phaseFlaky(r, "C10")
 	r.Require("distinct_nontrivial", 100)
 }
